@@ -93,6 +93,7 @@ def string_filename(rep, cases, info):
 def run(rep):
     rng = random.Random(rep.seed)
     quick = rep.tier == "quick"
+    P.replay_witnesses(rep, PID)
     rep.rule = ("I->S: seeded-random grammars with Comment rule, suppression and separators; inputs with leading, "
                 "trailing and interleaved whitespace and comments; loaded from strings and from files. Compared for "
                 "every object: _tx_position, _tx_position_end, get_location line/col/nchar/filename against the "
